@@ -50,7 +50,10 @@ def gen(ctx):
     coords = gen_coords(rng, n, dim=2, kind=kind)
     values = gen_values(rng, coords, 'field')
     model = str(rng.choice(SINGLE)) if rng.random() < 0.85 else \
-        '+'.join(str(x) for x in rng.choice(['spherical', 'exponential', 'gaussian'], size=2))
+        ('+'.join(str(x) for x in rng.choice(['spherical', 'exponential', 'gaussian'], size=2)) if rng.random() < 0.5 else
+         # sums with components that carry a shape parameter of their own (each with its own documented limit)
+         '+'.join(str(x) for x in rng.permutation(['stable', 'matern'] + ([str(rng.choice(['spherical', 'cubic']))]
+                                                                           if rng.random() < 0.4 else []))))
     method = 'trf' if rng.random() < 0.7 else 'lm'
     nl = int(rng.integers(6, 14))
     sig = rng.choice(['none', 'none', 'linear', 'exp', 'sqrt', 'sq', 'array'])
@@ -133,11 +136,18 @@ def check_case(ctx, case):
         frames = [f.name for f in tb]
         if isinstance(err, ZeroDivisionError):
             ctx.violation('crash', 'ZeroDivisionError during the fit (model %s)' % case['model'], case,
-                          signature=dict(kind='fit-crash', exception='ZeroDivisionError', model=case['model'],
+                          signature=dict(kind='fit-crash', exception='ZeroDivisionError',
+                                         # D13 is a property of the stable model, alone or as a component of a '+'-sum
+                                         model='stable' if 'stable' in case['model'].split('+') else case['model'],
                                          in_curve_fit=bool(rec.calls)))
             return
         if isinstance(err, OverflowError) and case['method'] == 'lm':
             ctx.reject('lm-diverged:OverflowError')     # "lm where it converges"
+            return
+        if isinstance(err, ValueError) and 'math domain error' in str(err) and case['method'] == 'lm' and \
+                frames and frames[-1] in ('stable', 'matern'):
+            # the unbounded optimiser walked to a negative shape / smoothness: the model is not defined there
+            ctx.reject('lm-diverged:math-domain-error')
             return
         if isinstance(err, RuntimeError) and 'Optimal parameters not found' in str(err):
             ctx.reject('optimizer-did-not-converge')
